@@ -2,10 +2,15 @@
 """seed_mutant.py <prop> <n> [checks…]: confirm /tmp/mut_<prop>/out/mutant<n>.diff in its scratch worktree, store it
 under /verif/seeded/<prop>-<n>/, run the registered quick checks against it (mutest.sh) and record the verdicts."""
 import json, os, re, shutil, subprocess, sys
-prop, n = sys.argv[1], sys.argv[2]
-checks = sys.argv[3:]
-wt = f"/tmp/mut_{prop}"
+args = [a for a in sys.argv[1:] if not a.startswith("--")]
+store_only = "--store-only" in sys.argv
+prop, n = args[0], args[1]
+checks = args[2:]
+rnd = int(os.environ.get("MUT_ROUND", "1"))          # round r mutants live in /tmp/mut<r>_<prop>, stored as <prop>-<2(r-1)+n>
+wt = f"/tmp/mut_{prop}" if rnd == 1 else f"/tmp/mut{rnd}_{prop}"
 patch, demo = f"{wt}/out/mutant{n}.diff", f"{wt}/out/demo{n}.rs"
+src_n = n
+n = str(2 * (rnd - 1) + int(n))
 out = subprocess.run(["/verif/confirm_mutant.sh", wt, patch, demo], stdout=subprocess.PIPE, stderr=subprocess.STDOUT, text=True).stdout
 print(out)
 ok = ("136 passed; 0 failed" in out) and ("DEMO with change: test result: FAILED" in out or "DEMO with change: error" in out) and re.search(r"DEMO without change: test result: ok", out)
@@ -15,6 +20,13 @@ if not ok:
 os.makedirs(d, exist_ok=True)
 shutil.copy(patch, f"{d}/patch.diff"); shutil.copy(demo, f"{d}/demo.rs")
 readme = open(f"{wt}/out/README.md").read() if os.path.exists(f"{wt}/out/README.md") else ""
+if store_only:
+    tm = re.findall(r"^#+\s*Mutant\s*%s\s*[-—:–]*\s*(.*)$" % src_n, readme, re.M)
+    meta = {"breaks_property": prop, "mutant": int(n), "round": rnd, "title": (tm[0] if tm else ""),
+            "what_it_needs_to_manifest": "see README excerpt", "readme_excerpt": readme[:6000],
+            "confirmed": {"how": "confirm_mutant.sh in scratch worktree " + wt + ": cargo test --offline --lib with the change; cargo build --features serde; demo test with and without the change", "output": out}}
+    json.dump(meta, open(f"{d}/meta.json", "w"), indent=1)
+    print("stored", d); sys.exit(0)
 m = subprocess.run(["/verif/mutest.sh", f"{d}/patch.diff"] + checks, stdout=subprocess.PIPE, stderr=subprocess.STDOUT, text=True).stdout
 print(m)
 caught = re.search(r"CAUGHT-BY:(.*)", m).group(1).split() if "CAUGHT-BY:" in m else []
